@@ -312,6 +312,27 @@ def explore(ctx, oracles, frame_mode=False):
             samples = [{"cap": b[0][0], "ops": b[0][1][:30]}, {"cap": b[-1][0], "ops": b[-1][1][:30]}]
         if len(ctx.violations) + len(ctx.corr_broken) > 3:
             break
+    if ctx.corr_broken and not ctx.violations and not thorough:
+        # directed search: the model and the code disagree but no oracle fired yet -> look harder for a failing input
+        extra = []
+        for k in range(3000):
+            cap = caps[k % len(caps)]
+            extra.append((cap, gen_random(rng, cap, rng.choice([300, 600, 1500]), 1 + (k // len(caps)) % 8, frame_mode)))
+        for i in range(0, len(extra), 500):
+            for ci, kind, det in run_batch(ctx, exe, drv, extra[i:i + 500], stats):
+                cap, ops = extra[i:i + 500][ci]
+                if kind == "oracle" and oracle_kind(det["msg"]) in oracles:
+                    okd = oracle_kind(det["msg"])
+                    small = C.ddmin(ops, lambda xs: single_fails(exe, drv, cap, xs, "oracle", okd), max_runs=150)
+                    ctx.violation("oracle", "h_chan_seq:%s" % okd,
+                                  "real channel.c violates the property: %s on `new %d; %s`" % (det["msg"], cap, "; ".join(small)),
+                                  {"harness": "h_chan_seq", "script": ["new %d" % cap] + small})
+                elif kind == "crash":
+                    ctx.violation("crash", "h_chan_seq:crash", "real channel.c crashed / sanitizer report: %s" % det,
+                                  {"harness": "h_chan_seq", "script": ["new %d" % cap] + ops})
+            if ctx.violations:
+                break
+        ctx.notes.append("directed search after a broken correspondence: %d extra random histories" % len(extra))
     ctx.cov["evaluations"] = stats["evaluations"]
     ctx.cov["distinct_nontrivial"] = len(stats["distinct"])
     ctx.cov["traces_validated_against_impl"] = stats["validated"]
